@@ -978,9 +978,6 @@ func genWriter(r *vh.Rand) []string {
 	if r.Chance(6) {
 		plan = append(plan, fmt.Sprintf("wfail %d %d", r.Intn(2), 256+r.Intn(20)))
 	}
-	if r.Chance(8) {
-		plan = append(plan, "ft")
-	}
 	plan = append(plan, "finish")
 	if r.Chance(6) {
 		plan = append(plan, "w 3 1", "fl", "ft")
